@@ -79,8 +79,8 @@ ASSUMPTIONS = [
     "tolerance of 1e-9 of the density scale, and events within 1e-12 of the border of the "
     "contour grid counted in the more favourable of the two readings (inside / outside: on a "
     "log scale exp(log(v)) moves the border by an ulp)",
-    "get_downsampled_scatter is only called with 0 or 1 <= request <= number of valid points "
-    "and without a zero-range / overflowing axis (D07/D08 of property C16 live in a .pyx "
+    "get_downsampled_scatter: requests above the number of valid points are only judged with "
+    "remove_invalid=True; no zero-range / overflowing axis (D07/D08 of property C16 live in a .pyx "
     "that cannot be rebuilt); other requests are counted as skipped",
     "when dclab raises on the dataset, the twin and the poisoned copy must raise the same "
     "exception type; an exception where the reference estimator is defined and finite is a "
@@ -93,7 +93,7 @@ MIN_EVALS = {"statistics.definition": 30000, "statistics.twin": 1000, "statistic
              "kde_contour.reference": 500, "kde_contour.grid": 500, "kde_contour.twin": 1200,
              "kde_contour.poison": 1000,
              "quantile.fraction": 3000, "quantile.twin": 500, "quantile.poison": 400,
-             "downsampled_scatter.twin": 1000, "downsampled_scatter.poison": 800,
+             "downsampled_scatter.twin": 1000, "downsampled_scatter.definition": 800, "downsampled_scatter.poison": 800,
              "tsv.definition": 2500, "tsv.twin": 800, "tsv.poison": 600}
 WATCHDOG_S = {"quick": 400, "thorough": 3000}
 
@@ -826,13 +826,13 @@ def op_contour(ctx, env, rng, G, fixed=None, quantiles=True):
         _relate(ctx, "quantile.poison", q0, q2, "dataset with overwritten excluded events")
 
 
-def _downsample_ok(x, y, xscale, yscale, req):
+def _downsample_ok(x, y, xscale, yscale, req, rinv=False):
     """None when the call is in the judged domain, else the reason for skipping (inputs of
     the C16 defects D07 / D08 and of their overflow variant)."""
     xs, ys = K.scale(x, xscale), K.scale(y, yscale)
     ok = ~(K.invalid(xs) | K.invalid(ys))
     nv = int(ok.sum())
-    if req > nv:
+    if req > nv and not rinv:
         return "request exceeds the number of valid points (D07 domain, C16)"
     if nv:
         with np.errstate(all="ignore"):
@@ -843,6 +843,11 @@ def _downsample_ok(x, y, xscale, yscale, req):
                 if r == 0:
                     return "zero-range axis (D08 domain, C16)"
     return None
+
+
+def _eqnan(a, b):
+    a, b = np.asarray(a, dtype=np.float64), np.asarray(b, dtype=np.float64)
+    return a.shape == b.shape and bool(np.array_equal(a, b, equal_nan=True))
 
 
 def op_downsample(ctx, env, rng, G, fixed=None):
@@ -858,7 +863,7 @@ def op_downsample(ctx, env, rng, G, fixed=None):
     else:
         xax, yax, xscale, yscale, req, rinv, ret_mask = fixed
         x, y = env.cols[xax][env.sel], env.cols[yax][env.sel]
-    why = _downsample_ok(x, y, xscale, yscale, req)
+    why = _downsample_ok(x, y, xscale, yscale, req, rinv)
     if why is not None:
         ctx.count(f"skipped_downsample[{why}]")
         return
@@ -881,7 +886,43 @@ def op_downsample(ctx, env, rng, G, fixed=None):
     ctx.count(f"downsample_calls[{xscale}/{yscale}:"
               f"{'0' if req == 0 else 'all-valid' if why is None and req >= x.size else 'some'}"
               f"{':remove_invalid' if rinv else ''}{':mask' if ret_mask else ''}]")
-    _run3(ctx, env, "downsampled_scatter", call, map0=map0)
+    r0, _r1, _r2 = _run3(ctx, env, "downsampled_scatter", call, map0=map0)
+    # definition: the points returned are selected events; with remove_invalid only events
+    # that are valid on the chosen scale, all of them when nothing has to be removed
+    if r0["exc"] is None:
+        res = r0["result"]
+        xr, yr = np.asarray(res[0]), np.asarray(res[1])
+        xs_, ys_ = K.scale(x, xscale), K.scale(y, yscale)
+        valid = ~(K.invalid(xs_) | K.invalid(ys_))
+        nv_ = int(valid.sum())
+        problems = []
+        if xr.shape != yr.shape:
+            problems.append("x and y of different length")
+        else:
+            if rinv:
+                bad = K.invalid(K.scale(xr, xscale)) | K.invalid(K.scale(yr, yscale))
+                if bad.any():
+                    problems.append(f"{int(bad.sum())} returned points are invalid on the "
+                                    f"{xscale}/{yscale} scale although remove_invalid=True")
+                want = nv_ if (req == 0 or req >= nv_) else req
+                if xr.size != want:
+                    problems.append(f"{xr.size} points returned, {want} expected "
+                                    f"(request {req}, {nv_} valid of {x.size} selected)")
+            elif req == 0 and xr.size != x.size:
+                problems.append(f"{xr.size} points returned without downsampling, "
+                                f"{x.size} selected")
+            if ret_mask and len(res) == 3 and not problems:
+                mk = np.asarray(res[2], dtype=bool)
+                if mk.shape != (n,) or (mk & ~env.sel).any():
+                    problems.append("mask marks events that are not selected")
+                elif not (_eqnan(env.cols[xax][mk], xr) and _eqnan(env.cols[yax][mk], yr)):
+                    problems.append("returned points are not the events marked by the mask")
+        ctx.check("downsampled_scatter.definition", not problems,
+                  lambda: {"xax": xax, "yax": yax, "xscale": xscale, "yscale": yscale,
+                           "downsample": req, "remove_invalid": rinv, "ret_mask": ret_mask,
+                           "n_events": n, "n_selected": int(x.size), "n_valid": nv_,
+                           "problems": problems},
+                  message="; ".join(problems))
 
 
 def op_tsv(ctx, env, feats, filtered, tag):
